@@ -78,7 +78,7 @@ def ref_get(start, path, sep, pathattr, ignorecase):
                     node = child
                     break
             else:
-                return ("error", "ChildResolverError", node)
+                return ("error", "ChildResolverError", node, part)
     return ("node", node)
 
 
